@@ -363,17 +363,27 @@ def recount(res):
 def parked_with_room(res):
     """C04, second clause, on observable events only: the dispatcher sits in pthread_cond_wait and has NOT
     been signalled, during the dispatch phase (a target has not been started yet), while fewer than `fanout`
-    workers are created-and-not-yet-through-their-epilogue (a worker leaves that set when it releases
-    threadcount_mutex at the end of `lock; threadcount--; signal; unlock`).  Then a slot is free, the worker
-    that freed it is completely done, and nothing is on the way to wake the dispatcher: the next target waits
-    for something other than the dispatcher being scheduled.  A dispatcher that is parked but signalled, or
-    woken and not yet scheduled, is fine and is not reported.  Returns the step number or None."""
+    workers are created-and-not-yet-through-their-epilogue.  A worker is through its epilogue when it has released
+    threadcount_mutex AND has nothing more to do: its thread is gone (it is in none of the harness's runnable /
+    parked / blocked lists).  A worker that has unlocked but still owes its wake-up call (`lock; threadcount--;
+    unlock; signal` -- a legitimate discipline) is therefore still counted: somebody is on the way to wake the
+    dispatcher.  Then a slot is free, the worker that freed it is completely done, and nothing is on the way to wake
+    the dispatcher: the next target waits for something other than the dispatcher being scheduled.  A dispatcher
+    that is parked but signalled, or woken and not yet scheduled, is fine and is not reported.  Returns the step
+    number or None."""
     n = int(res["header"].get("n", 0))
     f = int(res["header"].get("fanout", 0))
-    created = finished = 0
+    created = 0
+    unlocked = set()
+
+    def names(s, key):
+        v = s.get(key) or "-"
+        return set() if v == "-" else set(v.split(","))
     for s, ev in res["steps"] + ([(res.get("last_S"), None)] if res.get("last_S") else []):
         if s is not None and created < n:
-            parked = "D" in (s.get("P") or "").split(",")
+            parked = "D" in names(s, "P")
+            alive = names(s, "R") | names(s, "P") | names(s, "B") | names(s, "X")
+            finished = sum(1 for w in unlocked if w not in alive)
             if parked and created - finished < f:
                 return s["k"]
         if ev is None or len(ev) < 3:
@@ -381,7 +391,7 @@ def parked_with_room(res):
         if ev[0] == "D" and ev[1] == "create" and ev[2].startswith("W"):
             created += 1
         elif ev[0].startswith("W") and ev[1] == "unlock" and ev[2] == "tc":
-            finished += 1
+            unlocked.add(ev[0])
     return None
 
 
